@@ -463,12 +463,15 @@ fn check(prog: &Prog, info: &mut Info) -> Result<(), String> {
     }
 }
 
+crate::long_sub!(run_long_history, [26]);
+
 pub fn def() -> PropDef {
     PropDef {
         id: "C01",
         rule: "programs of 0..32 group operations over 6 projective + 3 affine registers per group, initial points from every class (identity incl. junk representatives, small multiples of the generator, subgroup, full-curve, each small prime order dividing the cofactor, order l*r, negated, same-y (beta x, y)) in generated Jacobian representatives; crate and affine chord-and-tangent model stepped in lock-step and compared after every step. Non-trivial = the program executes at least one exceptional-branch operation as judged by the model (identity operand, P=Q, P=Q in different representatives, P=-Q, same-y/different-x, order-3 doubling, batch with identity / mixed normalized entries, equality of equal points in different representatives); distinct = distinct programs",
         needs_pairing: false,
         subs: vec![
+            Box::new(crate::engine::EnumSub { name: "long-history", rule: super::longhist::RULE, run: run_long_history, replay: super::longhist::replay, exhaustive: false }),
             Box::new(Sub { name: "g1-programs", rule: "G1 register-machine programs vs model", quick: 12_000, thorough: 150_000, strategy: || boxed(strat_g1()), check }),
             Box::new(Sub { name: "g2-programs", rule: "G2 register-machine programs vs model", quick: 12_000, thorough: 150_000, strategy: || boxed(strat_g2()), check }),
         ],
